@@ -568,6 +568,21 @@ class ExecutionState:
             # Raise the original exception unwrapped
             raise bg_error.source_exception from bg_error
 
+    def ensure_not_orphaned(self, operation_id: str, parent_id: str | None) -> None:
+        """Raise OrphanedChildException if an enclosing context of the operation has completed.
+
+        create_checkpoint() rejects the checkpoints of orphans, which stops an orphaned branch at
+        its next durable operation. Operations that reach their user function without sending a
+        checkpoint first (the retry attempt of an AT_LEAST_ONCE step, a resumed wait_for_condition)
+        call this instead, so that the function of an orphan does not run either.
+        """
+        with self._parent_done_lock:
+            if operation_id in self._parent_done or self._has_completed_ancestor(
+                parent_id
+            ):
+                error_msg = "Parent context completed, child operation cannot execute"
+                raise OrphanedChildException(error_msg, operation_id=operation_id)
+
     def _has_completed_ancestor(self, parent_id: str | None) -> bool:
         """True if the given parent or one of its ancestors completed in this invocation or is an orphan.
 
